@@ -81,6 +81,7 @@ def run(chk):
         return probe.call({"cmd": "asm", "files": {"main.asm": text}, "merge": False})
 
     # ---- 1. all mnemonics x all forms x value classes
+    seen_texts = set()
     for mi, mn in enumerate(mns):
         for fi, form in enumerate(FORMS):
             if form == "FImplied":
@@ -98,7 +99,8 @@ def run(chk):
                 mo = model_outcome(m)
                 dist["form_cases"] += 1
                 dist["accepted" if io[0] == "ok" else "rejected"] += 1
-                chk.count(1, 1)
+                chk.count(1, 0 if text.lower() in seen_texts else 1)
+                seen_texts.add(text.lower())
                 if len(chk.cov["samples"]) < 4 and io[0] == "ok" and v > 255:
                     chk.sample({"text": text, "impl": io, "model": mo, "spec": m.get("spec")})
                 if not same(io, mo):
@@ -139,7 +141,8 @@ def run(chk):
             m = model.call({"cmd": "encode", "mn": mi, "form": 2, "v": target, "cur": DEFAULT_PC})
             mo = model_outcome(m)
             dist["branch_numeric"] += 1
-            chk.count(1, 1)
+            chk.count(1, 0 if text.lower() in seen_texts else 1)
+            seen_texts.add(text.lower())
             if io[0] != mo[0] or (io[0] == "ok" and io[1] != mo[1]):
                 chk.tie_break("correspondence:branch", "model and implementation disagree on %r" % text,
                               {"text": text, "impl": io, "model": mo})
@@ -164,7 +167,8 @@ def run(chk):
                 m = model.call({"cmd": "encode", "mn": mi, "form": 2, "v": DEFAULT_PC + pre + 2 + d, "cur": DEFAULT_PC + pre})
                 spec = m.get("spec")
                 dist["branch_label"] += 1
-                chk.count(1, 1)
+                chk.count(1, 0 if text.lower() in seen_texts else 1)
+                seen_texts.add(text.lower())
                 if spec is not None:
                     full = [0xEA] * k
                     full = (full + spec) if direction == "back" else (spec + full)
@@ -202,7 +206,8 @@ def run(chk):
                 io = impl_outcome(asm(text))
                 want = ("ok", alone[a][1] + alone[b][1])
                 dist["pairs"] += 1
-                chk.count(1, 1)
+                chk.count(1, 0 if text.lower() in seen_texts else 1)
+                seen_texts.add(text.lower())
                 if io != want:
                     chk.oracle_failure(None, "%r followed by %r (separator %r) assembles to %s, alone they assemble to %s" % (
                         a, b, sep, io, want), {"text": text, "impl": io, "expected": want})
@@ -211,8 +216,7 @@ def run(chk):
     model.stop()
     chk.cov["rule"] = ("exhaustive 56 mnemonics x 10 syntactic forms x value classes %s + out-of-range %s + %d random values per "
                        "(mnemonic, form); 8 branch mnemonics x all distances -140..140 (numeric target) and label-based forward/backward; "
-                       "every ordered pair of %d statement forms x %d separators. Each case is distinct by construction "
-                       "(distinct text); non-trivial = it exercises the table, the size selection or the branch arm." % (
+                       "every ordered pair of %d statement forms x %d separators. distinct = distinct program text (case-folded), counted with a set; non-trivial = it exercises the table, the size selection or the branch arm." % (
                            IN_RANGE, OUT_RANGE, nrand, len(stmts), len(seps)))
     chk.extra["distribution"] = dist
     chk.extra["exhaustive"] = False
